@@ -568,9 +568,9 @@ def c17(ctx):
         rep = ctx.vh_run_sharded(args, nshards=8 if quick else 16, timeout=3000)
         ctx.absorb(rep, args, label="storage/" + label)
         os.remove(f)
-    # B3 without bounds: TLAPS proof of the contract's invariants for every number of keys, operations and routes
-    if not quick:
-        ctx.tlaps("StorageProof")
+    # B3 without bounds: TLAPS proof of the contract's invariants for every number of keys, operations and routes (a few
+    # seconds: checked in both tiers)
+    ctx.tlaps("StorageProof")
     # B2: long random histories recorded from the real stores, validated by TLC against the same contract
     tr = os.path.join(ctx.scratch, "storage-trace.ndjson")
     rec = ["storage-record", "-out", tr, "-seed", str(ctx.seed), "-traces", "30" if quick else "300",
